@@ -105,3 +105,11 @@ Print Assumptions C04_readLPBytes_never_panics.
 Theorem C04_nextTopicLevel_never_panics : Trans.Spec.T_nextTopicLevel.
 Proof. exact Trans.Equiv.nextTopicLevel_equiv. Qed.
 Print Assumptions C04_nextTopicLevel_never_panics.
+
+(* header.decode - the fixed-header decoder every packet decoder starts with - as the source has it now, with the methods it
+   calls (Type, Flags, Valid, DefaultFlags, ValidQos), never panics and agrees with Codec.Impl.hdr_decode on the bytes
+   consumed, the error and every header field, for every header and every byte string *)
+From Trans Require EquivDecode.
+Theorem C04_header_decode_is_model : Trans.Spec.T_header_decode.
+Proof. exact Trans.EquivDecode.header_decode_equiv. Qed.
+Print Assumptions C04_header_decode_is_model.
